@@ -370,6 +370,79 @@ pub fn run(env: &Env, run: &Run) -> (Stats, Coverage) {
             }
         }));
     }
+    // (b3') the same histories where the call on label A does not return normally: a user-defined
+    // string class whose classifier panics at the last character of A (after the characters before
+    // it went through their context rules); the panic is caught, B is written into the same
+    // allocation, and every rule at every position of B must answer as if nothing had happened
+    {
+        struct Panicky {
+            at: char,
+        }
+        impl precis_core::StringClass for Panicky {
+            fn get_value_from_char(&self, c: char) -> precis_core::DerivedPropertyValue {
+                if c == self.at {
+                    panic!("classifier failed");
+                }
+                precis_core::FreeformClass::default().get_value_from_char(c)
+            }
+            fn get_value_from_codepoint(&self, cp: u32) -> precis_core::DerivedPropertyValue {
+                precis_core::FreeformClass::default().get_value_from_codepoint(cp)
+            }
+        }
+        let hs: Vec<char> = [0x6Cu32, 0xB7, 0xE9, ZWJ, VIRAMA, 0x30FB, 0x30A2, 0x21].iter().map(|c| char::from_u32(*c).unwrap()).collect();
+        let strs = all_strings(&hs, run.tier.pick(3, 4));
+        let mut by_len: std::collections::BTreeMap<usize, Vec<&String>> = std::collections::BTreeMap::new();
+        for x in &strs {
+            by_len.entry(x.len()).or_default().push(x);
+        }
+        let groups: Vec<Vec<&String>> = by_len.into_values().filter(|g| g.len() >= 2).collect();
+        let shards: Vec<Stats> = {
+            use rayon::prelude::*;
+            groups
+                .par_iter()
+                .map(|g| {
+                    let mut st = Stats::default();
+                    let mut buf = String::with_capacity(64);
+                    for a in g.iter() {
+                        let last = match a.chars().last() {
+                            Some(c) => c,
+                            None => continue,
+                        };
+                        // only histories in which something ran before the panic
+                        if a.chars().count() < 2 || a.chars().rev().skip(1).any(|c| c == last) {
+                            continue;
+                        }
+                        for b in g.iter() {
+                            if a == b {
+                                continue;
+                            }
+                            st.states += 1;
+                            st.transitions += 2;
+                            buf.clear();
+                            buf.push_str(a);
+                            let _ = crate::subject::guard(|| {
+                                use precis_core::StringClass;
+                                Panicky { at: last }.allows(buf.as_str()).is_ok()
+                            });
+                            buf.clear();
+                            buf.push_str(b);
+                            let l: Vec<u32> = b.chars().map(|c| c as u32).collect();
+                            for pos in 0..l.len() {
+                                for r in CtxRule::ALL {
+                                    check_rule(env, r, &l, &buf, pos, &mut st);
+                                }
+                            }
+                        }
+                    }
+                    st.count("out:after-unwinding-call");
+                    st
+                })
+                .collect()
+        };
+        for x in shards {
+            st.merge(x);
+        }
+    }
     // (b4) two-call histories: one rule call on label A at position p, then one rule call on a
     // different label B of the same byte length in the same allocation at a position q >= p
     {
